@@ -1,1 +1,80 @@
-From Verif Require Import Base Tie.
+(* C10 -- unseen levels and new groups at prediction follow the configured policy
+   (Model/Design.v new_categoric / new_term / new_gterm / new_group; Model/History.v parse_mode). *)
+From Verif Require Import Base Frame Design History DesignStructure Unseen.
+From Verif Require Generated Tie.
+Local Close Scope Qc_scope.
+Local Close Scope Q_scope.
+
+Theorem C10_unseen_error_iff :
+  forall d cm xs, dc_contrast d = Some cm ->
+    (new_categoric UError d xs = Err EValue <-> exists x, In x xs /\ unseen_val (dc_levels d) x = true).
+Proof. exact unseen_error_iff. Qed.
+
+(* warning / silent: an unseen value gives a zero row, a seen value the row it has without them *)
+Theorem C10_unseen_zero_rows :
+  forall mode d cm xs rows w,
+    dc_contrast d = Some cm -> new_categoric mode d xs = Ok (rows, w) ->
+    List.length rows = List.length xs /\
+    forall i x, nth_error xs i = Some x ->
+      (unseen_val (dc_levels d) x = true -> nth i rows [] = repeat (zcell 0) (contrast_width cm)) /\
+      (unseen_val (dc_levels d) x = false -> new_categoric UError d [x] = Ok ([nth i rows []], false)).
+Proof. exact unseen_zero_rows. Qed.
+
+(* ... and every column of a term involving that variable is zero on that row *)
+Theorem C10_term_zero_on_unseen_rows :
+  forall cx mode data t rows w parts i,
+    String.eqb (dt_kind t) "intercept" = false ->
+    mapM (new_comp cx mode data) (dt_comps t) = Ok parts ->
+    new_term cx mode data t = Ok (rows, w) ->
+    Forall (fun p => clean_row (nth i (fst p) [])) parts ->
+    Exists (fun p => zero_row (nth i (fst p) [])) parts -> zero_row (nth i rows []).
+Proof. exact new_term_unseen_row. Qed.
+
+Theorem C10_warns_iff :
+  forall mode d xs rows w, new_categoric mode d xs = Ok (rows, w) ->
+    (w = true <-> mode = UWarning /\ exists x, In x xs /\ unseen_val (dc_levels d) x = true).
+Proof. exact warns_iff. Qed.
+
+(* unseen groups: exactly one trailing block, 1 exactly on the new-group rows; earlier blocks unchanged *)
+Theorem C10_new_group_block :
+  forall cx mode data g rows w,
+    new_gterm cx mode data g = Ok (rows, w) ->
+    exists x p rest,
+      new_term cx mode data (dg_expr g) = Ok x /\
+      mapM (new_comp cx mode data) (dg_factor g) = Ok (p :: rest) /\
+      let j := fold_left rows_kron (map fst rest) (fst p) in
+      rows = rows_kron (extend_zero_rows j) (fst x) /\
+      w = snd x || existsb (fun q => snd q) (p :: rest) /\
+      List.length (extend_zero_rows j) = List.length j /\
+      (Forall (fun r => ~ zero_row r) j -> extend_zero_rows j = j) /\
+      (Exists zero_row j -> forall i, i < List.length j ->
+         nth i (extend_zero_rows j) [] = (nth i j [] ++ [if all_zero (nth i j []) then zcell 1 else zcell 0])%list).
+Proof. exact new_group_block. Qed.
+
+(* factors_with_new_levels = exactly the factors of the terms that were widened, once each *)
+Theorem C10_factors_with_new_levels :
+  forall cx mode ds data ng,
+    new_group cx mode ds data = Ok ng ->
+    exists parts,
+      mapM (new_gterm cx mode data) (ds_group ds) = Ok parts /\
+      ng_new_factors ng =
+        first_occ (map (fun p => dg_factor_name (fst p)) (filter width_changed (combine (ds_group ds) parts))) /\
+      NoDup (ng_new_factors ng) /\
+      (forall f, In f (ng_new_factors ng) <->
+                 exists g p, In (g, p) (combine (ds_group ds) parts) /\
+                             width (fst p) <> width (dg_rows g) /\ dg_factor_name g = f) /\
+      ng_warned ng = existsb (fun x => snd x) parts.
+Proof. exact new_group_new_factors. Qed.
+
+(* the configuration accepts exactly its documented values (regenerated from config.py) *)
+Theorem C10_config_validates :
+  forall v, (exists m, parse_mode v = Some m) <->
+            v = "error"%string \/ v = "warning"%string \/ v = "silent"%string.
+Proof. exact config_accepts_iff. Qed.
+Example C10_config_fields :
+  Generated.gen_config_fields = [("EVAL_UNSEEN_CATEGORIES"%string, ["error"%string; "warning"%string; "silent"%string])].
+Proof. reflexivity. Qed.
+
+Print Assumptions C10_unseen_zero_rows.
+Print Assumptions C10_new_group_block.
+Print Assumptions C10_factors_with_new_levels.
